@@ -103,7 +103,7 @@ def closure(targets, named):
 class RunScenario:
     """a repository + one `run` invocation, with everything the oracle needs to know"""
 
-    def __init__(self, rng, max_targets=5, with_argmaps=True, custom_dirs=True):
+    def __init__(self, rng, max_targets=5, with_argmaps=True, custom_dirs=True, undefined_pct=10):
         self.rng = rng
         self.targets = gen_acyclic_targets(rng, 1, max_targets)
         ncmd = rng.range(1, 3)
@@ -131,7 +131,7 @@ class RunScenario:
             files = dir_files.setdefault(dkey, {})
             for c in self.all_commands:
                 if c not in files:
-                    if rng.below(10) == 0:
+                    if rng.below(100) < undefined_pct:
                         files[c] = None              # undefined
                     else:
                         files[c] = c + (rng.pick(["", ".sh", ".py"]) if rng.chance(1, 2) else "")
